@@ -38,4 +38,50 @@ PROPS = {
         'trusted_base': ['math/big modelled as exact Nat arithmetic; time.Duration as Int with the int64 range not enforced (theorems hold for all Int)'],
         'assumptions': ['model = code is established by differential testing of single calls, not by proof'],
     },
+    'C14': {
+        'lean_targets': ['Cqos.Props.C14'],
+        'theorems': ['Cqos.C14.c14_fair_total', 'Cqos.C14.c14_fair_frame', 'Cqos.C14.c14_fair_shape',
+                     'Cqos.C14.c14_rate_total', 'Cqos.C14.c14_rate_frame', 'Cqos.C14.c14_rate_incs',
+                     'Cqos.C14.c14_rate_mono', 'Cqos.C14.c14_v1_eq_v2'],
+        'runs': [{'cmd': 'pure', 'args': ['-family', 'c14']}],
+        'monitor_prefix': ['C14'],
+        'level': 'proof',
+        'level_text': ('Lean theorems for every priority list, dividend and initial map: Fair and Rate add exactly the '
+                       'dividend and touch no unlisted entry (Rate: for ANY rounding function, so independent of floating '
+                       'point), Fair\'s increments are floor(d/n) plus one for the first d mod n, Rate\'s increments are '
+                       'non-increasing when the rounded parts are, v1 = v2; the model is tied to all four Go functions by '
+                       'exhaustive small-scope + tie/truncation/near-equal/large-magnitude differential runs'),
+        'level_note': ('partial in one respect: the "within n/2 of the exact share" clause and the antitone hypothesis on the '
+                       'IEEE rounding are not kernel-proved (Float is opaque); they are evaluated on every executed call by the '
+                       'model driver (float-hypothesis-fails) and by the monitor on the implementation\'s result'),
+        'rule': ('Fair/Rate/FairDivider/RateDivider on: every sorted duplicate-free list over a small alphabet x dividend '
+                 'range (exhaustive), nil/pre-filled maps, exact-tie dividends, truncation (near-equal large priorities), '
+                 'dividends around multiples of sum and of n, skewed lists, random magnitudes up to 2^40 / 2^32; '
+                 'non-trivial = at least two priorities and a positive dividend; distinct = distinct request line. ' + PURE_NOTE),
+        'trusted_base': ['IEEE-754 double arithmetic of Rate is executed (Lean Float = C double), not reasoned about'],
+        'assumptions': ['priorities sum < 2^53 and totals < 2^64 (no float/uint overflow)'],
+    },
+    'C18': {
+        'lean_targets': ['Cqos.Props.C18'],
+        'theorems': ['Cqos.C18.c18_comb', 'Cqos.C18.c18_comb_count', 'Cqos.C18.c18_nonfatal_iff',
+                     'Cqos.C18.c18_unfixed_counterexample', 'Cqos.C18.c18_suitable_imp', 'Cqos.C18.c18_suitable_mono',
+                     'Cqos.C18.c18_pick_min', 'Cqos.C18.c18_pick_max', 'Cqos.C18.c18_accepted',
+                     'Cqos.C18.c18_accepted_fair', 'Cqos.C18.c18_accepted_rate'],
+        'runs': [{'cmd': 'pure', 'args': ['-family', 'c18']}],
+        'monitor_prefix': ['C18'],
+        'level': 'proof',
+        'level_text': ('Lean theorems for every priority list, ANY divider and every q/max: genCombinations = the non-empty '
+                       'order-preserving sub-lists (2^n-1 of them), IsNonFatalConfig true iff every member of every such '
+                       'sub-list gets >= 1, suitable => non-fatal, monotone in the limit, PickUpMin/Max = least/greatest '
+                       'q in [1,max] or 0, non-fatal => prepare accepts (Fair, Rate via the C14 conservation theorems); '
+                       'the model is tied to both modules\' helpers and to v2 prepare by differential runs'),
+        'level_note': ('the float comparison inside isDistributionSuitable is a parameter of the theorems (monotonicity is '
+                       'stated for any comparison that is monotone in the limit); the driver executes the IEEE computation'),
+        'rule': ('IsNonFatalConfig / IsSuitableConfig / PickUp* (v1 and v2), genCombinations, prepare on: every priority set '
+                 'over a small alphabet x q range (exhaustive, shuffled presentation), near-equal large priorities '
+                 '(Rate truncation family), the D2 witness, random sets; non-trivial = at least two priorities and q > 0; '
+                 'distinct = distinct request line. ' + PURE_NOTE),
+        'trusted_base': ['IEEE-754 arithmetic of isDistributionSuitable is executed, not reasoned about'],
+        'assumptions': ['max < 2^64-1 (the Go loop counter does not wrap)'],
+    },
 }
